@@ -17,6 +17,7 @@ import KafkaVerif.Model.TransportConn
 import KafkaVerif.Spec.MuxMonitor
 import KafkaVerif.Model.BatchBytes
 import KafkaVerif.Model.ConnDeadline
+import KafkaVerif.Model.PoolDiscover
 
 namespace KV.OracleC06
 open KV
@@ -233,6 +234,23 @@ def step (line : String) : String :=
     | ["tconn", journals, events, tags] => TConn.handle journals events tags impl
     | ["bb", ver, offset, declared, stream, ops] => BB.handle ver offset declared stream ops impl
     | ["dl", _, script] => DL.handle script impl
+    | ["disc", _, _, script] =>
+      -- the refresh loop as Model/PoolDiscover reads it: every refresh applies the outcome of its own request
+      let ev : String → Option PoolDiscover.Event := fun w =>
+        match w.toList with
+        | ['S'] => some .start
+        | ['T'] => some .take
+        | ['X'] => some .timeout
+        | 'C' :: rest => match (String.ofList rest).splitOn ":" with
+          | [j, ok] => j.toNat?.map (fun j => .complete j (ok == "1"))
+          | _ => none
+        | _ => none
+      match (commaList script).mapM ev with
+      | none => "bad-op"
+      | some es =>
+        match PoolDiscover.run true es with
+        | none => "model=reject holds=0"
+        | some s => answer (if s.applied.all (fun (k, r) => r.req == k) then "fresh" else "stale") (impl == "fresh")
     | ["lv", _, _] =>
       -- two waiters, one frame for neither: in Model/ConnMux the only way out is `peekErr` (a deadline); with deadlines
       -- set both calls end with an error
